@@ -78,6 +78,9 @@ BUILTIN_ENUMS = {
     'Entry': ['Occupied', 'Vacant'], 'Ordering': ['Less', 'Equal', 'Greater'],
     'TrySendError': ['Full', 'Disconnected'], 'TryRecvError': ['Empty', 'Disconnected'],
     'Cow': ['Borrowed', 'Owned'],
+    'GenError': ['BufferTooSmall', 'InvalidOffset', 'CustomError', 'NotYetImplemented'],
+    'SendError': ['Io', 'Disconnected'],
+    'ErrorKind': None,
 }
 
 
